@@ -66,7 +66,12 @@ class Attribute(_expression.Any):
 
 
 class Field(Attribute):
-    pass
+    def __init__(self, data_type: SerializableType, name: str, doc: str = ""):
+        super().__init__(data_type, name, doc)
+        try:
+            _ = data_type.bit_length_set
+        except TypeError:  # E.g., service types.
+            raise InvalidTypeError("Type %s is not serializable and cannot be a field type" % data_type) from None
 
 
 class PaddingField(Field):
